@@ -34,6 +34,16 @@ PROPERTIES.update({
             "EXTENSIBILITY IMPLIED parsing and Rasn::generate_module's per-module reset of the extensibility default",
         ],
     },
+    "C14": {
+        "verus": ["C14_numbering"],
+        "kani_quick": [], "kani_thorough": [],
+        "unverified": [
+            "the nom parser of enumeration items (lexer/enumerated.rs: enumeration_items / enumeral) and the zip of the assigned numbers back onto the parsed items in enumerated_body (iterator adapters inside an `impl Parser` closure) — names and order are carried by that glue, not by a contract",
+            "Enumerated::from (root ++ additions; under contract in C02/C05)",
+            "discriminant literal and identifier annotation per variant (generator/rasn/utils.rs format_enum_members: TokenStream code)",
+            "the distinctness lemma assumes that the explicitly written numbers are valid (X.680 §20.1/20.4/20.5) and below i128::MAX; the compiler does not reject invalid explicit numbers",
+        ],
+    },
     "C03": {
         "verus": [],
         "kani_quick": ["k_c03_tagenv_add", "k_c03_asn_tag_from", "k_c03_module_header_from", "k_layout_sentinel_scalars"],
